@@ -399,12 +399,17 @@ void janet_bytecode_movopt(JanetFuncDef *def) {
 int janet_verify(JanetFuncDef *def) {
     int vargs = !!(def->flags & JANET_FUNCDEF_FLAG_VARARG);
     int32_t i;
-    int32_t maxslot = def->arity + vargs;
     int32_t sc = def->slotcount;
 
     if (def->bytecode_length == 0) return 1;
 
-    if (maxslot > sc) return 2;
+    /* arity + vargs <= slotcount, written so that a huge arity cannot wrap */
+    if (def->arity < 0 || sc < vargs || def->arity > sc - vargs) return 2;
+
+    /* An environment is either captured from the enclosing frame (-1) or inherited by index */
+    for (i = 0; i < def->environments_length; i++) {
+        if (def->environments[i] < -1) return 15;
+    }
 
     /* Verify each instruction */
     for (i = 0; i < def->bytecode_length; i++) {
